@@ -88,6 +88,8 @@ def gen_flow(rng):
             "scope": scope, "claims": claims, "intro": rng.sample(["owner", "outsider", "rs"], 3),
             # the user logs out from this client afterwards (the provider lives on: later flows log in again, and out again)
             "logout": rng.random() < 0.35,
+            # … or the client hands the access token to the revocation endpoint, with or without a token_type_hint (right, wrong, unknown)
+            "revoke_hint": rng.choice(["-", "-", "", "access_token", "refresh_token", "authorization_code", "bogus"]),
             # another client exchanges the access token for one of its own: what that token releases follows THAT client's rules
             "exchange_by": rng.choice([None, None] + [c for c in FLOW_CLIENTS])}
 
@@ -154,9 +156,20 @@ def run_flow(s, f):
                 out["x_userinfo"] = _user_attrs(xu)
                 # (introspection by the exchanging client is gated out by the audience restriction: the exchange grant names no resources)
                 out["x_scope"] = xr["response_args"].get("scope")
-        if f.get("logout"):
-            sid = ctx.session_manager.get_session_info_by_token(at, handler_key="access_token")["branch_id"]
-            s.get_endpoint("session").logout_from_client(sid)
+        if f.get("logout") or f.get("revoke_hint", "-") != "-":
+            if f.get("logout"):
+                sid = ctx.session_manager.get_session_info_by_token(at, handler_key="access_token")["branch_id"]
+                s.get_endpoint("session").logout_from_client(sid)
+                out["ended_by"] = "logout"
+            else:
+                rv = s.get_endpoint("token_revocation")
+                rq = {"token": at, "client_id": cid, "client_secret": ctx.cdb[cid]["client_secret"]}
+                if f["revoke_hint"]:
+                    rq["token_type_hint"] = f["revoke_hint"]
+                rr = rv.process_request(rv.parse_request(rq))
+                out["ended_by"] = "revocation" + (" (token_type_hint=%s)" % f["revoke_hint"] if f["revoke_hint"] else "")
+                if not isinstance(rr, dict) or "error" in rr:
+                    out["ended_by"] = None         # the revocation was refused: nothing to conclude
             gone = {}
             try:
                 pr = ui.parse_request({}, http_info={"headers": {"authorization": "Bearer " + at}})
@@ -170,7 +183,8 @@ def run_flow(s, f):
                 gone["introspection"] = _user_attrs(i2) + (["sub"] if "sub" in i2 else []) + (["active"] if i2.get("active") else [])
             except Exception:
                 gone["introspection"] = []
-            out["after_logout"] = gone
+            if out["ended_by"]:
+                out["after_logout"] = gone
     except Exception as e:
         out["exc"] = type(e).__name__ + ":" + str(e)[:100]
     return out
@@ -315,7 +329,7 @@ def oracle(c, obs):
                           "exchange": [f["client"], f.get("exchange_by")] if point.startswith("x_") else None})
         al = o.get("after_logout")
         if al and (al["userinfo"] or al["introspection"]):
-            v.append({"cls": "released-for-an-invalid-token", "after": "logout", "released": al, "client": f["client"]})
+            v.append({"cls": "released-for-an-invalid-token", "after": o.get("ended_by", "logout"), "released": al, "client": f["client"]})
         x = o.get("introspection_outsider")
         if x and (x["active"] or x["attrs"] or x["sub"]):
             v.append({"cls": "released-outside-audience", "got": x, "order": f.get("intro")})
